@@ -88,6 +88,9 @@ func useHandle(st *comet.PersistentHybridIndex, what string, id int) error {
 			return nil // "not found" is not about ownership
 		}
 		return err
+	case "searchempty": // a search without any constraint: whatever it answers on an open handle, it fails on a closed one
+		_, err := st.NewSearch().Execute()
+		return err
 	case "compact": // no result to report: must simply not blow up
 		st.TriggerCompaction()
 		return nil
@@ -191,9 +194,9 @@ func drvLock(args []string) error {
 				}
 				sort.Ints(ids)
 				id := ids[rng.Intn(len(ids))]
-				what := []string{"add", "addauto", "search", "flush", "remove", "train", "compact", "add", "flush"}[rng.Intn(9)]
+				what := []string{"add", "addauto", "search", "flush", "remove", "train", "compact", "add", "flush", "searchempty"}[rng.Intn(10)]
 				err, panicked := useGuarded(handles[id], what, 100+step)
-				t.ev("use", E{"h": id, "what": what, "ok": err == nil && !panicked, "panic": panicked, "void": what == "compact"})
+				t.ev("use", E{"h": id, "what": what, "ok": err == nil && !panicked, "panic": panicked, "void": what == "compact", "lenient": what == "searchempty"})
 			default:
 				if !*procs {
 					continue
